@@ -25,6 +25,34 @@ def ser(e):
     return ser_expr(e, pop=pop_num)
 
 
+SPELL = {"on": False}
+
+
+def spelled(p):
+    """The atom built through the public builder and operator chains, as a user may write it: children joined with &
+    from the last to the first, the last condition attached with |, the remaining ones as one joint distribution with a
+    second | (Python reads  a | b | c & d  as  (a | b) | (c & d));  P(...) / PP[pop](...) normalise the order."""
+    from y0.dsl import PP, P
+    from ser import de_var, pop_var
+
+    ch = [de_var(v) for v in p["ch"]]
+    pa = [de_var(v) for v in p["pa"]]
+    d = ch[-1]
+    for c in reversed(ch[:-1]):
+        d = d & c
+    if pa:
+        d = d | pa[-1]
+        rest = pa[:-1]
+        if len(rest) == 1:
+            d = d | rest[0]
+        elif rest:
+            j = rest[-1]
+            for c in reversed(rest[:-1]):
+                j = j & c
+            d = d | j
+    return PP[pop_var(p["pop"])](d) if p.get("pop", 0) else P(d)
+
+
 def build(x):
     """Build the y0 object of a math term bottom-up with the public operators."""
     from y0.dsl import Fraction, One, Probability, Sum, Zero
@@ -34,7 +62,7 @@ def build(x):
 
     op = x["op"]
     if op == "atom":
-        return de_expr(x["p"])
+        return spelled(x["p"]) if SPELL["on"] and x["p"]["t"] == "P" else de_expr(x["p"])
     if op == "one":
         return One()
     if op == "zero":
@@ -173,6 +201,23 @@ def main():
                 stats["arg_failed"] += 1
             finally:
                 ser_mod.set_naming("V")
+            # the same round trip with every probability atom spelled through the public builder and operator chains
+            SPELL["on"] = True
+            try:
+                a3 = build(x["a"])
+                obj3, out3 = out_of(lambda: build(x))
+                pre3 = ser(a3)
+                if obj3 is not None and "e" in out3:
+                    out3["same_obj"] = obj3 == a3
+                    out3["same_str"] = obj3.to_y0() == a3.to_y0()
+                recs.append({"id": rid + "#spelled", "k": "pp", "a": pre3, "out": out3, "text": a3.to_y0()[:300],
+                             "raw": has_raw(x), "pub": True})
+            except NotApplicable:
+                pass
+            except Exception:  # noqa: BLE001
+                stats["arg_failed"] += 1
+            finally:
+                SPELL["on"] = False
         else:
             recs.append({"id": rid, "k": "calc", "m": x, "out": out})
     json.dump({"recs": recs, "stats": stats}, open(sys.argv[2], "w"))
